@@ -157,3 +157,129 @@ func vh_C03_two_callers() {
 }
 
 var _ = context.Background
+
+// ---- a multi-chunk concurrent ReadAt whose chunk replies come back in every
+// order: the real recv loop, slicer, workers and reducer ----
+
+type vReadPeer struct {
+	buf     []byte
+	pending [][]byte
+	want    int
+	out     chan []byte
+	content []byte
+	closed  bool
+}
+
+func (p *vReadPeer) Write(b []byte) (int, error) {
+	p.buf = append(p.buf, b...)
+	for len(p.buf) >= 4 {
+		l := int(vBE32(p.buf))
+		if len(p.buf) < 4+l {
+			break
+		}
+		frame := p.buf[4 : 4+l]
+		p.buf = p.buf[4+l:]
+		id := frame[1:5]
+		_, rest := vBodyStr(frame[5:])
+		off := int(vBE64(rest))
+		var reply []byte
+		if off < len(p.content) {
+			reply = refFrame(sshFxpData, append(append([]byte{}, id...), 0, 0, 0, 1, p.content[off]))
+		} else {
+			reply = refFrame(sshFxpStatus, append(append([]byte{}, id...), 0, 0, 0, 1, 0, 0, 0, 0, 0, 0, 0, 0))
+		}
+		p.pending = append(p.pending, reply)
+	}
+	if len(p.pending) == p.want {
+		// every permutation of the outstanding replies
+		for len(p.pending) > 0 {
+			k := vChoice(len(p.pending))
+			p.out <- p.pending[k]
+			p.pending = append(p.pending[:k], p.pending[k+1:]...)
+		}
+	}
+	return len(b), nil
+}
+
+func (p *vReadPeer) Close() error {
+	if !p.closed {
+		p.closed = true
+		close(p.out)
+	}
+	return nil
+}
+
+// Not registered as is (6 threads incl. the real recv loop: >311k paths in 10 min); see vh_C03_readat_reply_orders_stub.
+//
+//verif:atomic-invisible
+//verif:tier manual
+func vh_C03_readat_reply_orders() {
+	content := vNondetArray(3)
+	out := make(chan []byte, 4)
+	peer := &vReadPeer{want: 3, out: out, content: content}
+	c := &Client{clientConn: clientConn{conn: conn{Reader: &vPipeReader{ch: out}, WriteCloser: peer},
+		inflight: make(map[uint32]chan<- result), closed: make(chan struct{})}, ext: map[string]string{}, maxPacket: 1, maxConcurrentRequests: 2}
+	c.clientConn.wg.Add(1)
+	go func() {
+		defer c.clientConn.wg.Done()
+		if err := c.clientConn.recv(); err != nil {
+			c.clientConn.broadcastErr(err)
+		}
+	}()
+	f := &File{c: c, path: "/f", handle: "h"}
+	b := make([]byte, 3)
+	n, err := f.ReadAt(b, 0)
+	vAssert(err == nil && n == 3, "every chunk gets the reply to its own request, whatever the reply order")
+	vAssert(vBytesEq(b, content), "the bytes land at their offsets")
+	c.Close()
+}
+
+
+// the same without the transport threads: dispatchRequest is replaced by a
+// stub that holds the replies back until all chunk requests are out and then
+// delivers them to the registered channels in every order
+type vHeld struct {
+	ch    chan<- result
+	typ   fxp
+	data  []byte
+}
+
+var vHeldReplies []vHeld
+var vHeldWant int
+var vHeldContent []byte
+
+func vDeferDispatch(c *clientConn, ch chan<- result, p idmarshaler) {
+	typ, body := vPeerFrame(p)
+	_ = typ
+	id := body[:4]
+	_, rest := vBodyStr(body[4:])
+	off := int(vBE64(rest))
+	var h vHeld
+	if off < len(vHeldContent) {
+		h = vHeld{ch, sshFxpData, append(append([]byte{}, id...), 0, 0, 0, 1, vHeldContent[off])}
+	} else {
+		h = vHeld{ch, sshFxpStatus, append(append([]byte{}, id...), 0, 0, 0, 1, 0, 0, 0, 0, 0, 0, 0, 0)}
+	}
+	vHeldReplies = append(vHeldReplies, h)
+	if len(vHeldReplies) == vHeldWant {
+		for len(vHeldReplies) > 0 {
+			k := vChoice(len(vHeldReplies))
+			r := vHeldReplies[k]
+			vHeldReplies = append(vHeldReplies[:k], vHeldReplies[k+1:]...)
+			r.ch <- result{typ: r.typ, data: r.data}
+		}
+	}
+}
+
+//verif:redirect (*github.com/pkg/sftp.clientConn).dispatchRequest vDeferDispatch
+//verif:atomic-invisible
+func vh_C03_readat_reply_orders_stub() {
+	vHeldContent = vNondetArray(3)
+	vHeldReplies, vHeldWant = nil, 3
+	c := &Client{clientConn: clientConn{inflight: make(map[uint32]chan<- result), closed: make(chan struct{})}, ext: map[string]string{}, maxPacket: 1, maxConcurrentRequests: 2}
+	f := &File{c: c, path: "/f", handle: "h"}
+	b := make([]byte, 3)
+	n, err := f.ReadAt(b, 0)
+	vAssert(err == nil && n == 3, "every chunk gets the reply to its own request, whatever the reply order")
+	vAssert(vBytesEq(b, vHeldContent), "the bytes land at their offsets")
+}
